@@ -9,8 +9,8 @@ Two layers.
    `number::<T>()` = `text::int(10).from_str::<u32|u64|usize>().try_map(..)`, the hex digits of `hex()` through
    `usize::from_str_radix(s, 16)` inside `try_map`; a negative integer literal is `(val as i64).wrapping_neg()`.
    `FromStr` for unsigned integers is a checked multiply-add loop (`parseDigits`); `Err(PosOverflow)` is an ordinary
-   parse error of that alternative (`Quirks.checked`, the default).  Before the repair (BugStalker c7cd7fc, 15cb65b,
-   1c32a2e, dfe8c6f) the conversions were `unwrapped()` / `unwrap()` / `-(val as i64)` and an out-of-range token was a
+   parse error of that alternative (`Quirks.checked`, the default).  Before the repair (BugStalker 49f358c, b81e8d8,
+   67375f8, 0af67fe) the conversions were `unwrapped()` / `unwrap()` / `-(val as i64)` and an out-of-range token was a
    **panic**: that is the setting `asFound`, kept only so that the regression stays expressible in the model.
 
 2. *The grammar*, transcribed combinator by combinator into a small PEG datatype `G` (chumsky is a PEG: ordered
